@@ -20,7 +20,15 @@ after that table was created – through `create_acyclic_order` (soundness of `s
 `Lemmas/SortMap.lean`: success ⇒ every table got an index above those of its dependencies) and
 `create_cyclic_order` (explicit form of `detachReferences`, `Lemmas/SortDetach.lean`).
 
-PARTIAL: for change sets that also drop or modify tables, that `dependsOn` is acyclic after
+`drop_plan_respects_fks` (`plan_replays` for change sets that only drop tables, ANY number of tables and
+ANY foreign-key graph incl. cycles): every foreign key to another dropped table disappears – with the DROP
+of its own table, or by an earlier ALTER – before the referenced table is dropped: `drop_acyclic_order`
+(`dependencies_drop` + soundness of `sortMap`: every table is dropped after every other dropped table that
+holds a key to it) and `drop_cyclic_order` (explicit form of `detachReferences` on drops,
+`Lemmas/SortDetachDrop.lean`, and `sortChanges_prefix`, `Lemmas/SortPrefix.lean`: the ALTERs that drop the
+keys have no dependency, so `SortChanges` emits all of them before the first DROP TABLE).
+
+PARTIAL: for change sets that MIX creations, drops and modifications, that `dependsOn` is acyclic after
 `DetachCycles` (the hypothesis of `sortChanges_topo`) and that the order replays on the reference
 catalogue is checked exhaustively on the enumerated space and on random larger graphs by the
 correspondence run and the replay monitor, not proved.
@@ -29,6 +37,8 @@ import Atlas.Sort
 import Lemmas.SortDfs
 import Lemmas.SortMap
 import Lemmas.SortDetach
+import Lemmas.SortDetachDrop
+import Lemmas.SortPrefix
 
 namespace Props.C04
 open Atlas.Sort
@@ -239,6 +249,50 @@ theorem create_acyclic_order (cs : List Ch) (m : List (String × Nat))
     rw [this] at hne
     exact hne hdt.symm
 
+/-- **drop_acyclic_order**: a set of dropped tables (any number, one change per table) whose foreign-key
+graph passes the planner's cycle detection is planned as a permutation of the given changes in which
+every table is dropped only after every OTHER dropped table that holds a foreign key to it. -/
+theorem drop_acyclic_order (cs : List Ch) (m : List (String × Nat))
+    (hdrop : ∀ c ∈ cs, c.kind = .drop) (hid : (cs.map (·.id)).Nodup)
+    (hsm : sortMap cs = some m) :
+    (planOrder cs).Perm cs ∧
+    ∀ pre d post, planOrder cs = pre ++ d :: post →
+      ∀ c ∈ cs, c.id ≠ d.id → ∀ fk ∈ c.fks, fk.ref = d.table → c ∈ pre := by
+  have hperm : (detachCycles cs).Perm cs := detachCycles_perm cs m hsm
+  have hmem : ∀ x, x ∈ detachCycles cs ↔ x ∈ cs := fun x => hperm.mem_iff
+  have hid' : ((detachCycles cs).map (·.id)).Nodup := (hperm.map _).nodup_iff.mpr hid
+  obtain ⟨hinv, hkeys⟩ := sortMap_inv cs m hsm
+  have hisd : ∀ a ∈ cs, isDropped cs a.table = true := by
+    intro a ha
+    simp only [isDropped, List.any_eq_true, Bool.and_eq_true, beq_iff_eq]
+    exact ⟨a, ha, hdrop a ha, rfl⟩
+  have hrk : ∀ a ∈ detachCycles cs, ∀ b ∈ detachCycles cs, dependsOn a b = true → a.id ≠ b.id →
+      (lookup m b.table).getD 0 < (lookup m a.table).getD 0 := by
+    intro a ha b hb hdep _
+    have ha' := (hmem a).mp ha
+    have hb' := (hmem b).mp hb
+    unfold dependsOn at hdep
+    rw [hdrop a ha', hdrop b hb'] at hdep
+    simp only [refTo, List.any_eq_true, beq_iff_eq] at hdep
+    obtain ⟨fk, hfk, hfr⟩ := hdep
+    have hhas := dependencies_drop cs b hb' (hdrop b hb') fk hfk (by rw [hfr]; exact hisd a ha')
+    obtain ⟨i, j, hi, hj, hij⟩ := lookup_lt hinv (hkeys _ (has_key hhas)) hhas
+    rw [← hfr, hi, hj]; exact hij
+  obtain ⟨hp, hord⟩ := sortChanges_topo (detachCycles cs) (fun c => (lookup m c.table).getD 0) hid' hrk
+  unfold planOrder
+  refine ⟨hp.trans hperm, ?_⟩
+  intro pre d post heq c hc hne fk hfk hfr
+  have hd : d ∈ cs := by
+    have : d ∈ pre ++ d :: post := by simp
+    rw [← heq] at this
+    exact (hp.trans hperm).mem_iff.mp this
+  apply hord pre d post heq c ((hmem c).mpr hc)
+  · unfold dependsOn
+    rw [hdrop c hc, hdrop d hd]
+    simp only [refTo, List.any_eq_true, beq_iff_eq]
+    exact ⟨fk, hfk, hfr⟩
+  · exact fun e => hne e.symm
+
 /-- **create_cyclic_order**: a set of new tables (any number, one change per table) whose foreign-key
 graph is reported cyclic by the planner (`sortMap` fails): the plan creates every table exactly once,
 with its self references only, and every foreign key to another table is added by an ALTER that comes
@@ -347,6 +401,140 @@ theorem create_cyclic_order (cs : List Ch)
         have := id_inj_of_nodup hidD d hdD p hpD e
         rw [this, hpk] at hdk; cases hdk
 
+/-- **drop_cyclic_order**: a set of dropped tables (any number, one change per table) whose foreign-key
+graph is reported cyclic by the planner (`sortMap` fails): the plan drops every table exactly once, the
+drops hold self references only, and every foreign key to another table is dropped by an ALTER that
+comes before ANY table is dropped. -/
+theorem drop_cyclic_order (cs : List Ch)
+    (hdrop : ∀ c ∈ cs, c.kind = .drop) (hid : (cs.map (·.id)).Nodup) (htab : (cs.map (·.table)).Nodup)
+    (hsm : sortMap cs = none) :
+    (((planOrder cs).filter (·.kind == .drop)).map (·.table)).Perm (cs.map (·.table)) ∧
+    (∀ p ∈ planOrder cs, p.kind = .drop → ∀ fk ∈ p.fks, fk.ref = p.table) ∧
+    ∀ c ∈ cs, ∀ fk ∈ c.fks, fk.ref ≠ c.table →
+      ∃ pre d post, planOrder cs = pre ++ d :: post ∧ d.kind = .modify ∧ d.table = c.table ∧
+        Sub.dropFK fk ∈ d.subs ∧ ∀ p ∈ pre, p.kind ≠ .drop := by
+  have hdet : detachCycles cs = plannedOfD (freshBase cs) cs ++ deferredOfD (freshBase cs) cs := by
+    unfold detachCycles; rw [hsm]; exact detachReferences_drop cs hdrop
+  have hidD : ((detachCycles cs).map (·.id)).Nodup := by
+    rw [hdet]; exact idsD_nodup cs _ hid (lt_freshBase cs)
+  have hPk := plannedOfD_kind cs (freshBase cs)
+  have hDk := deferredOfD_kind cs (freshBase cs) hdrop
+  have hDt := deferredOfD_table cs (freshBase cs)
+  have hDtab : ((deferredOfD (freshBase cs) cs).map (·.table)).Nodup := by rw [hDt]; exact htab
+  have tinjD := table_inj_of_nodup hDtab
+  -- rank: ALTERs 0, drops 1
+  let rk : Ch → Nat := fun c => if c.kind == .drop then 1 else 0
+  have hkind : ∀ x ∈ detachCycles cs, (x ∈ plannedOfD (freshBase cs) cs ∧ x.kind = .modify) ∨
+      (x ∈ deferredOfD (freshBase cs) cs ∧ x.kind = .drop) := by
+    intro x hx
+    rw [hdet] at hx
+    rcases List.mem_append.mp hx with h | h
+    · exact Or.inl ⟨h, hPk x h⟩
+    · exact Or.inr ⟨h, (hDk x h).1⟩
+  have hrk : ∀ a ∈ detachCycles cs, ∀ b ∈ detachCycles cs, dependsOn a b = true → a.id ≠ b.id → rk b < rk a := by
+    intro a ha b hb hdep hne
+    rcases hkind a ha with ⟨_, hak⟩ | ⟨haD, hak⟩ <;> rcases hkind b hb with ⟨_, hbk⟩ | ⟨hbD, hbk⟩
+    · exfalso; unfold dependsOn at hdep; rw [hak, hbk] at hdep; simp at hdep
+    · exfalso; unfold dependsOn at hdep; rw [hak, hbk] at hdep; simp at hdep
+    · simp [rk, hak, hbk]
+    · -- drop / drop: only self references are left, so b would be a itself
+      exfalso
+      unfold dependsOn at hdep
+      rw [hak, hbk] at hdep
+      simp only [refTo, List.any_eq_true, beq_iff_eq] at hdep
+      obtain ⟨fk, hfk, hfr⟩ := hdep
+      have := (hDk b hbD).2 fk hfk
+      have hab : a = b := tinjD a haD b hbD (by rw [← hfr, this])
+      exact hne (by rw [hab])
+  obtain ⟨hp, _⟩ := sortChanges_topo (detachCycles cs) rk hidD hrk
+  have hmemO : ∀ x, x ∈ planOrder cs ↔ x ∈ detachCycles cs := fun x => by unfold planOrder; exact hp.mem_iff
+  -- the ALTERs have no dependency: they come first
+  have hidinj := id_inj_of_nodup hidD
+  have hno : ∀ c ∈ detachCycles cs, c.kind ≠ .drop → edgesOf (allOf (detachCycles cs)) c = [] := by
+    intro c hc hk
+    unfold edgesOf
+    rw [List.filter_eq_nil_iff]
+    intro d _ hcon
+    have hmem : (c.id, d.id) ∈ hasEOf (allOf (detachCycles cs)) := by simpa using hcon
+    obtain ⟨a, b, ha, hb, hai, _, _, hdep⟩ := hasE_sound hmem
+    have haD : a ∈ detachCycles cs := (partition_perm (detachCycles cs)).mem_iff.mp ha
+    have hbD : b ∈ detachCycles cs := (partition_perm (detachCycles cs)).mem_iff.mp hb
+    have hac : a = c := hidinj a haD c hc hai
+    subst hac
+    rcases hkind a haD with ⟨_, hak⟩ | ⟨_, hak⟩
+    · rcases hkind b hbD with ⟨_, hbk⟩ | ⟨_, hbk⟩ <;>
+        (unfold dependsOn at hdep; rw [hak, hbk] at hdep; simp at hdep)
+    · exact hk hak
+  obtain ⟨rest, hrest⟩ := sortChanges_prefix (detachCycles cs) hidD hno
+  have hother : (detachCycles cs).filter (·.kind != .drop) = plannedOfD (freshBase cs) cs := by
+    rw [hdet, List.filter_append]
+    have f1 : (plannedOfD (freshBase cs) cs).filter (·.kind != .drop) = plannedOfD (freshBase cs) cs := by
+      rw [List.filter_eq_self]; intro x hx; simp [hPk x hx]
+    have f2 : (deferredOfD (freshBase cs) cs).filter (·.kind != .drop) = [] := by
+      rw [List.filter_eq_nil_iff]; intro x hx; simp [(hDk x hx).1]
+    rw [f1, f2, List.append_nil]
+  rw [hother] at hrest
+  refine ⟨?_, ?_, ?_⟩
+  · have h1 : ((planOrder cs).filter (·.kind == .drop)).Perm ((detachCycles cs).filter (·.kind == .drop)) := by
+      unfold planOrder; exact hp.filter _
+    have h2 : (detachCycles cs).filter (·.kind == .drop) = deferredOfD (freshBase cs) cs := by
+      rw [hdet, List.filter_append]
+      have f1 : (deferredOfD (freshBase cs) cs).filter (·.kind == .drop) = deferredOfD (freshBase cs) cs := by
+        rw [List.filter_eq_self]; intro x hx; simp [(hDk x hx).1]
+      have f2 : (plannedOfD (freshBase cs) cs).filter (·.kind == .drop) = [] := by
+        rw [List.filter_eq_nil_iff]; intro x hx; simp [hPk x hx]
+      rw [f1, f2, List.nil_append]
+    rw [← hDt, ← h2]
+    exact h1.map _
+  · intro p hp' hk fk hfk
+    rcases hkind p ((hmemO p).mp hp') with ⟨_, hm⟩ | ⟨hD, _⟩
+    · rw [hk] at hm; cases hm
+    · exact (hDk p hD).2 fk hfk
+  · intro c hc fk hfk hne
+    obtain ⟨d, hd, hdk, hdt, hdsub⟩ := plannedOfD_complete cs (freshBase cs) c hc fk hfk hne
+    obtain ⟨pre, post, hsplit⟩ := List.append_of_mem hd
+    refine ⟨pre, d, post ++ rest, ?_, hdk, hdt, hdsub, ?_⟩
+    · unfold planOrder; rw [hrest, hsplit]; simp
+    · intro p hp'
+      have : p ∈ plannedOfD (freshBase cs) cs := by rw [hsplit]; exact List.mem_append_left _ hp'
+      rw [hPk p this]; intro h; cases h
+
+/-- **drop_plan_respects_fks** (`plan_replays` for change sets that only drop tables): whatever the number
+of tables and whatever their foreign-key graph, in the planned order every foreign key to another dropped
+table disappears – with its own table's DROP TABLE, or by an earlier ALTER TABLE – before the referenced
+table is dropped. -/
+theorem drop_plan_respects_fks (cs : List Ch)
+    (hdrop : ∀ c ∈ cs, c.kind = .drop) (hid : (cs.map (·.id)).Nodup) (htab : (cs.map (·.table)).Nodup) :
+    ∀ c ∈ cs, ∀ fk ∈ c.fks, fk.ref ≠ c.table →
+      ∃ pre x post, planOrder cs = pre ++ x :: post ∧ x.table = c.table ∧
+        ((x.kind = .drop ∧ fk ∈ x.fks) ∨ Sub.dropFK fk ∈ x.subs) ∧
+        ∀ p ∈ pre, ¬ (p.kind = .drop ∧ p.table = fk.ref) := by
+  intro c hc fk hfk hne
+  cases hsm : sortMap cs with
+  | some m =>
+    obtain ⟨hperm, hord⟩ := drop_acyclic_order cs m hdrop hid hsm
+    obtain ⟨pre, post, hsplit⟩ := List.append_of_mem (hperm.mem_iff.mpr hc)
+    refine ⟨pre, c, post, hsplit, rfl, Or.inl ⟨hdrop c hc, hfk⟩, ?_⟩
+    rintro p hp ⟨_, hpt⟩
+    -- p is the drop of the referenced table and stands before c: then c stands before p as well
+    obtain ⟨a, b, hab⟩ := List.append_of_mem hp
+    have hpcs : p ∈ cs := hperm.mem_iff.mp (by rw [hsplit]; exact List.mem_append_left _ hp)
+    have hcp : c.id ≠ p.id := by
+      intro e
+      have := id_inj_of_nodup hid c hc p hpcs e
+      rw [this] at hne; exact hne hpt.symm
+    have hca : c ∈ a := hord a p (b ++ c :: post) (by rw [hsplit, hab]; simp) c hc hcp fk hfk hpt.symm
+    have hnd : (planOrder cs).Nodup := by
+      have : ((planOrder cs).map (·.id)).Nodup := (hperm.map _).nodup_iff.mpr hid
+      exact nodup_of_map_id this
+    rw [hsplit, hab] at hnd
+    have : c ∈ a ++ p :: b := List.mem_append_left _ hca
+    exact (List.nodup_append.mp hnd).2.2 c this c (List.mem_cons_self ..) rfl
+  | none =>
+    obtain ⟨_, _, h3⟩ := drop_cyclic_order cs hdrop hid htab hsm
+    obtain ⟨pre, d, post, hsplit, _, hdt, hsub, hpre⟩ := h3 c hc fk hfk hne
+    exact ⟨pre, d, post, hsplit, hdt, Or.inr hsub, fun p hp h => hpre p hp h.1⟩
+
 /-- **create_plan_respects_fks** (`plan_replays` for change sets that only create tables): whatever
 the number of tables and whatever their foreign-key graph – chains, diamonds, self references, cycles
 of any length – in the planned order every foreign key to another new table is established (inline in
@@ -399,5 +587,25 @@ set_option maxRecDepth 8000 in
 example : (planOrder [{ id := 1, kind := .add, table := "t0", fks := [fk 0 1] },
                       { id := 2, kind := .add, table := "t1", fks := [fk 1 2] },
                       { id := 3, kind := .add, table := "t2" }]).map (·.table) = ["t2", "t1", "t0"] := by decide
+
+/-- drop t0 → t1 → t2 → t0 -/
+def dropCycle3 : List Ch :=
+  [{ id := 1, kind := .drop, table := "t0", fks := [fk 0 1] },
+   { id := 2, kind := .drop, table := "t1", fks := [fk 1 2] },
+   { id := 3, kind := .drop, table := "t2", fks := [fk 2 0] }]
+
+example : sortMap dropCycle3 = none := by decide
+
+set_option maxRecDepth 8000 in
+/-- the three keys are dropped first (ALTERs), then the tables (without their keys). -/
+example : (planOrder dropCycle3).map (fun c => (c.kind, c.table, c.fks.length, c.subs.length)) =
+    [(.modify, "t0", 0, 1), (.modify, "t1", 0, 1), (.modify, "t2", 0, 1),
+     (.drop, "t0", 0, 0), (.drop, "t1", 0, 0), (.drop, "t2", 0, 0)] := by decide
+
+set_option maxRecDepth 8000 in
+/-- a chain of drops is ordered by dependency: t0 (the holder of the first key) first, t2 last. -/
+example : (planOrder [{ id := 3, kind := .drop, table := "t2" },
+                      { id := 2, kind := .drop, table := "t1", fks := [fk 1 2] },
+                      { id := 1, kind := .drop, table := "t0", fks := [fk 0 1] }]).map (·.table) = ["t0", "t1", "t2"] := by decide
 
 end Props.C04
